@@ -127,6 +127,9 @@ type X struct {
 	requires []*Term
 	retPC    *Term
 	events   []callEvent
+	unescaped map[*Term]bool // fresh objects whose address has not been stored in the heap
+	neqMemo  map[[2]int]bool
+	contained map[*Term][]*Term
 }
 
 // callEvent records the symbolic result of a call to a function that was
@@ -144,7 +147,7 @@ func NewX(w *World, root string, mode *Mode) *X {
 		root: root, counts: map[string]int{}, mode: mode, ghostInit: map[string]*Term{}, knownIv: map[int][2]*big.Int{},
 		rangeOf: map[*Term]Value{}, boxed: map[*Term]Value{}, typeByKey: map[string]types.Type{}, isFresh: map[*Term]bool{},
 		cellEscaped: map[int]bool{}, usedContracts: map[string]*Contract{}, unknownCalls: map[string]int{},
-		untracked: map[string]bool{"log": true, "conn": true, "stdout": true}, inlineExternal: map[string]bool{}}
+		untracked: map[string]bool{"log": true, "conn": true, "stdout": true}, inlineExternal: map[string]bool{}, unescaped: map[*Term]bool{}, neqMemo: map[[2]int]bool{}, contained: map[*Term][]*Term{}}
 }
 
 func (x *X) warn(format string, args ...interface{}) {
@@ -621,6 +624,16 @@ func (x *X) load(s *State, l *Loc, t types.Type) Value {
 	v := Value{T: t, L: make([]*Term, len(lay.Leaves))}
 	for i, lf := range lay.Leaves {
 		v.L[i] = x.loadLeaf(s, l, lf)
+		if len(x.unescaped) > 0 && lf.Sort == IntSort && pointerLike(lf) && !x.B.hasBoundVar(v.L[i]) {
+			// a pointer read from the heap cannot be an object whose address was never stored there
+			for r := range x.unescaped {
+				k := [2]int{v.L[i].id, r.id}
+				if v.L[i] != r && !x.neqMemo[k] {
+					x.neqMemo[k] = true
+					x.assumeGlobal(x.B.Neq(v.L[i], r), "heap-loaded pointer differs from unescaped fresh object")
+				}
+			}
+		}
 		if len(x.W.Specs.FieldInv) > 0 {
 			if owner := ownerOf(l, lf); owner != "" {
 				if inv, ok := x.W.Specs.FieldInv[owner]; ok && !x.typed[-7*v.L[i].id-3] && !x.B.hasBoundVar(v.L[i]) {
@@ -679,10 +692,53 @@ func (x *X) fieldInvObligations(l *Loc, v Value, pc *Term, pos string) {
 	}
 }
 
+func pointerLike(lf Leaf) bool {
+	if lf.Role == "base" || lf.Role == "data" {
+		return true
+	}
+	if lf.Role != "" {
+		return false
+	}
+	switch lf.T.Underlying().(type) {
+	case *types.Pointer, *types.Map, *types.Chan:
+		return true
+	}
+	return false
+}
+
+func (x *X) markEscaped(v Value) {
+	if len(x.unescaped) == 0 {
+		return
+	}
+	for _, t := range v.L {
+		x.escapeRef(t)
+	}
+}
+
+func (x *X) escapeRef(t *Term) {
+	if !x.unescaped[t] {
+		return
+	}
+	delete(x.unescaped, t)
+	for _, c := range x.contained[t] {
+		x.escapeRef(c)
+	}
+}
+
 func (x *X) store(s *State, l *Loc, v Value) {
 	if l.Kind == LCell {
 		s.cells[l.Cell] = v
 		return
+	}
+	if l.Ref != nil && x.unescaped[l.Ref] {
+		// stored into an object that is itself not reachable from the heap
+		for _, t := range v.L {
+			if x.unescaped[t] {
+				x.contained[l.Ref] = append(x.contained[l.Ref], t)
+			}
+		}
+	} else {
+		x.markEscaped(v)
 	}
 	lay := LayoutOf(v.T)
 	for i, lf := range lay.Leaves {
